@@ -261,3 +261,52 @@ def c20(run):
         "a static-model violation alone is not reported as a violation unless the real code shows a race, a non-linearizable round or a lost insertion in the same run",
         "tickets come from one atomic counter taken immediately before / after each call"],
         extra_cov={"race_detector_reports": reports, "static_model_violations": len(static), "linearization_rounds": nlin})
+
+
+HD_ASSUME = ["HMAC-SHA512, secp256k1 base-point multiplication / point addition / decompression, SHA-256 and RIPEMD-160 are environment functions evaluated by the harness (crypto/*, bchec) from fixed offsets of the parent's serialization; the harness logs a superset (both candidate HMACs) and never decides which applies",
+             "the abstract key value of the logged state is the 78-byte payload of String() read at fixed offsets",
+             "derivation behaviour of a key is probed by one non-hardened child after every call"]
+
+
+# --------------------------------------------------------------------------- C04
+@prop("C04", "Trace_HDKeys")
+def c04(run):
+    run.build()
+    run.mc("KeyPool", "MC_KeyPool.cfg")
+    trace, _ = run.exec("C04")
+    run.validate("Trace_HDKeys", trace)
+    return finish(run, assumptions=HD_ASSUME)
+
+
+# --------------------------------------------------------------------------- C05
+@prop("C05", "Trace_HDKeys")
+def c05(run):
+    run.build()
+    run.mc("MC_TextCodecs")
+    trace, _ = run.exec("C05")
+    run.validate("Trace_HDKeys", trace)
+    return finish(run, assumptions=HD_ASSUME)
+
+
+# --------------------------------------------------------------------------- C06
+@prop("C06", "Trace_HDKeys")
+def c06(run):
+    run.build()
+    run.mc("MC_TextCodecs")
+    trace, _ = run.exec("C06")
+    run.validate("Trace_HDKeys", trace)
+    return finish(run, assumptions=HD_ASSUME)
+
+
+# --------------------------------------------------------------------------- C15
+@prop("C15", "Trace_HDKeys")
+def c15(run):
+    run.build()
+    run.mc("KeyPool", "MC_KeyPool.cfg")
+    r = run.mc("KeyPool", "MC_KeyPool_shared.cfg", expect_fail=True)
+    if r["ok"]:
+        raise pipeline.Infra("negative control failed: the heap model with a sharing Neuter should violate Independent")
+    cases = run.gen("KeyPool", "Gen_KeyPool.cfg", env={"GEN_DEPTH": "4" if run.tier == "thorough" else "3"})
+    trace, _ = run.exec("C15", cases=cases)
+    run.validate("Trace_HDKeys", trace)
+    return finish(run, assumptions=HD_ASSUME + ["the buffers inspected after Zero are the four slices captured through the verif hook before the call"])
